@@ -1078,6 +1078,12 @@ class KInterp:
                             res += s.cmp_u(c2, 'u' + pred[1:], x, y)   # both msb-flipped: signed order = unsigned order of values
                         elif not fx and not fy and x.hi < (1 << 31) and y.hi < (1 << 31):
                             res += s.cmp_u(c2, 'u' + pred[1:], x, y)
+                        elif not fx and not fy and isinstance(a, Half) and isinstance(b, Half) and a.j == 1 and b.j == 1:
+                            # high halves of two unshifted values that may have their top bit set: the signed order of the bit
+                            # patterns is the unsigned order after adding 2^31 mod 2^32 to both (partition on each top bit)
+                            for c3, fa in s._flip(c2, x, 1 << 31, 32):
+                                for c4, fb in s._flip(c3, y, 1 << 31, 32):
+                                    res += s.cmp_u(c4, 'u' + pred[1:], fa, fb)
                         elif fx != fy and isinstance(a, Half) and isinstance(b, Half) and a.j == 1 and b.j == 1:
                             # high halves, one operand carried as shifted and the other not: the signed order of the two bit
                             # patterns is the unsigned order of (value of the shifted one) and (value + 2^31 mod 2^32 of the other)
@@ -1328,6 +1334,23 @@ class KInterp:
             if isinstance(a0, list) or isinstance(a1, list):
                 return s.vmap(st, ins.dst, [a0, a1], pick, len(a0) if isinstance(a0, list) else len(a1))
             return s.setv(st, ins.dst, pick(st.case, a0, a1))
+        m = re.match(r'llvm\.s(min|max)\.(v\d+)?i64$', name)
+        if m:
+            # signed minimum / maximum per 64-bit element: partition on the signed comparison of the bit patterns
+            def spick(case, x, y, kind=m.group(1)):
+                x = s.tokv(case, s.resolve(case, x))
+                y = s.tokv(case, s.resolve(case, y))
+                out = []
+                for c2, gt in s.cmp(case, 'sgt', x, y, 64):
+                    if gt is UNK or gt is None:
+                        raise Undecided('signed min/max: comparison not decided')
+                    big, small = (x, y) if gt else (y, x)
+                    out.append((c2, small if kind == 'min' else big))
+                return out
+            a0, a1 = args[0], args[1]
+            if isinstance(a0, list) or isinstance(a1, list):
+                return s.vmap(st, ins.dst, [a0, a1], spick, len(a0) if isinstance(a0, list) else len(a1))
+            return s.setv(st, ins.dst, spick(st.case, a0, a1))
         m = re.match(r'llvm\.u(add|sub)\.with\.overflow\.i(32|64)$', name)
         if m:
             # {result mod 2^w, carry / borrow}: partitioned on the flag, like the hardware adc/sbb idioms
@@ -1609,6 +1632,40 @@ def witness_search(case, diff, seed=0, tries=600, exact=False, pred=None):
             else:
                 a[x] = min(h, max(l, rnd.choice((l + 1, h - 1, (l + h) // 2, h - rnd.randint(0, 3), l + rnd.randint(0, 3)))))
         cands.append(a)
+    # sparse structured operands: every other symbol at its lower bound, one or two symbols a power of two (or one less):
+    # failing sets of carry-handling code are often thin but contain such points (2^48 * 2^48, 2^63 * 2^63, ...)
+    if 1 <= len(free) <= 10:
+        base = {x: case.box[x][0] for x in free}
+        pool = {}
+        for x in free:
+            l, h = case.box[x]
+            vs = []
+            k = 0
+            while (1 << k) <= h and k <= 64:
+                for v in ((1 << k), (1 << k) - 1):
+                    if l <= v <= h:
+                        vs.append(v)
+                k += 1
+            pool[x] = sorted(set(vs))
+        for i, x in enumerate(free):
+            for vx in pool[x]:
+                a = dict(base)
+                a[x] = vx
+                cands.append(a)
+        npair = 0
+        for i, x in enumerate(free):
+            for y in free[i + 1:]:
+                for vx in pool[x][::2] if len(pool[x]) > 40 else pool[x]:
+                    for vy in pool[y][::2] if len(pool[y]) > 40 else pool[y]:
+                        a = dict(base)
+                        a[x] = vx
+                        a[y] = vy
+                        cands.append(a)
+                        npair += 1
+                if npair > 30000:
+                    break
+            if npair > 30000:
+                break
     for a in cands:
         try:
             a = complete(dict(a))
